@@ -137,3 +137,8 @@ impl Reader {
         self.reader.samples()
     }
 }
+
+// Verification hook (inert unless built by `cargo kani`): harnesses for the private items of this module.
+#[cfg(kani)]
+#[path = "/verif/kani/incrate/h_site_reader.rs"]
+mod verif_kani;
